@@ -108,7 +108,7 @@ def tree_models(model: Any) -> list:
 
 # --------------------------------------------------------------------------- invariants (C05)
 
-def invariants(root: Any, *, whole_store: bool = True, check_comments: bool = True) -> list[tuple[str, str]]:
+def invariants(root: Any, *, whole_store: bool = True, check_comments: bool = True, trivia_extra: tuple = ()) -> list[tuple[str, str]]:
     """Structural invariants of a tree over its token store. Returns [(clause, message)]; empty = holds.
 
     whole_store: the root must span its store entirely (a File, a popped node, a constructed model)."""
@@ -184,7 +184,7 @@ def invariants(root: Any, *, whole_store: bool = True, check_comments: bool = Tr
             bad.append(('leaf-twice', f'token #{i} {type(t).__name__} {t.raw_text!r} is a leaf of {c} tree positions'))
         if not (lo <= i <= hi):
             continue
-        if isinstance(t, TRIVIA):
+        if isinstance(t, TRIVIA) or (trivia_extra and type(t).__name__ in trivia_extra):
             continue
         if isinstance(t, BlockComment):
             if check_comments:
